@@ -113,4 +113,10 @@ TEXTS = {
         level_text="Exploration over seeded derive/write histories and seeded schedules of concurrent writers and snapshot readers.",
         level_note="Trusted: the model (global write sequence) for sequential runs; for concurrent runs the per-task suffix/recency condition, which every linearisation satisfies.",
     ),
+    "C15": dict(
+        engine="corrupt", design_ref="DESIGN.md section 8 (C15)",
+        technique="fault injection on the simulated disk, store, peer channel and io.Reader: seeded corruption operators (byte level and CBOR-structure level, torn writes at every offset) applied to real encodings and consumed through the real read paths; panic/hang oracle with decoder-scoped stacks; ddmin-minimised replays",
+        level_text="Exploration: hundreds of thousands of corrupted variants of real encodings per quick run, through eight read paths; the weakest fit for the technique (no schedule; the fault is input mutation), kept because corrupted stored bytes and corrupted peer messages are fault kinds of the simulated disk and channel.",
+        level_note="Trusted: the recover/stack scoping. A hang is detected by a 10 s wall-clock bound.",
+    ),
 }
